@@ -27,7 +27,7 @@ fn spec(t: Tier) -> Spec {
     Spec {
         id: "C07",
         level: "exploration",
-        rule: format!("every name of <= {} characters over {:?} (except . and ..) is created as a file (t/f/NAME), as a directory holding another such name (t/d/NAME/NEXT), and used as a starting point (as given, and for directories respelled NAME/, NAME//, NAME/., ./NAME, .//NAME/ under -P, -H and -L (printed as given, the entry below joined with exactly one more '/' unless the spelling already ends in one); the starting-point lists also go through the real pipeline); find_main's -print0 and -print output must be, byte for byte, the starting point as given + '/'-joined names + one delimiter per entry and nothing else (reference list built from the names, sequence under -sorted); the same tree goes through a real `find -print0 | xargs -0 vrec LOG` pipeline and the recorder's argv must be that list exactly, each path once; failing-command slice: the same pipeline with -n 3 and the recorder exiting 1, 125, 126, 127, 130, 254 on its first batches — every path is still delivered; extra slices: a path with a newline followed by >1024 bytes through real stdout (pipe and file), a listing arranged so that a multi-byte character straddles the 8192-byte buffer refill of xargs -0, and listings of 2500 entries arranged so that a NUL is exactly the last byte of a full 8192-byte buffer / the first byte of the next (pipeline and regular file); non-trivial = name containing a character other than 'a' and '.'", maxlen(t), ALPHA),
+        rule: format!("every name of <= {} characters over {:?} (except . and ..) is created as a file (t/f/NAME), as a directory holding another such name (t/d/NAME/NEXT), and used as a starting point (as given, and for directories respelled NAME/, NAME//, NAME/., ./NAME, .//NAME/ under -P, -H and -L (printed as given, the entry below joined with exactly one more '/' unless the spelling already ends in one); the starting-point lists also go through the real pipeline; the same directory under seven spellings one after the other in one run); find_main's -print0 and -print output must be, byte for byte, the starting point as given + '/'-joined names + one delimiter per entry and nothing else (reference list built from the names, sequence under -sorted); the same tree goes through a real `find -print0 | xargs -0 vrec LOG` pipeline and the recorder's argv must be that list exactly, each path once; failing-command slice: the same pipeline with -n 3 and the recorder exiting 1, 125, 126, 127, 130, 254 on its first batches — every path is still delivered; extra slices: a path with a newline followed by >1024 bytes through real stdout (pipe and file), a listing arranged so that a multi-byte character straddles the 8192-byte buffer refill of xargs -0, and listings of 2500 entries arranged so that a NUL is exactly the last byte of a full 8192-byte buffer / the first byte of the next (pipeline and regular file); non-trivial = name containing a character other than 'a' and '.'", maxlen(t), ALPHA),
         bound: json!({"max_name_len": maxlen(t), "alphabet": ALPHA}),
         assumptions: vec!["names are valid UTF-8 (the statement's scope); tmpfs".into()],
         shards: 0,
@@ -242,6 +242,37 @@ fn run(ctx: &mut Ctx) {
                             json!({"prop":"C07","kind":"roots","roots":spelled,"flag":flag}),
                         );
                     }
+                }
+            }
+        }
+        // the same directory under several spellings one after the other in one run (what is printed for
+        // one starting point must not depend on how the directory was spelled just before)
+        for flag in ["-P", "-L"] {
+            for chunk in usable.chunks(8) {
+                let mut spelled: Vec<String> = vec![];
+                let mut want_list: Vec<String> = vec![];
+                for n in chunk {
+                    let i = batch.iter().position(|x| &x == n).unwrap();
+                    for (pre, suf) in [("", "/."), ("", ""), ("./", ""), ("", "/"), ("", ""), (".//", "/."), ("", "//")] {
+                        let sp = format!("{pre}{n}{suf}");
+                        want_list.push(sp.clone());
+                        want_list.push(format!("{sp}{}{}", if sp.ends_with('/') { "" } else { "/" }, batch[(i + 1) % batch.len()]));
+                        spelled.push(sp);
+                    }
+                }
+                let mut args: Vec<&str> = vec![flag];
+                args.extend(spelled.iter().map(|s| s.as_str()));
+                args.extend(["-sorted", "-print0"]);
+                let got = run_find(&args);
+                ctx.rep.evaluations += 1;
+                ctx.rep.count("directories_under_several_spellings_in_one_run", chunk.len() as u64);
+                let want = joined(&want_list, 0);
+                if got.code != Ok(0) || got.out != want {
+                    ctx.rep.violation(
+                        &format!("C07 the same directory given under several spellings in one run: a starting point is not printed exactly as given [{flag}]"),
+                        format!("status {:?}; {}", got.code, first_diff(&want, &got.out)),
+                        json!({"prop":"C07","kind":"roots","roots":spelled,"flag":flag}),
+                    );
                 }
             }
         }
